@@ -153,19 +153,9 @@ def describe(cls, base):
         decs = cls.__pydantic_decorators__
         used = [k for k in ("validators", "field_validators", "root_validators", "model_validators",
                             "field_serializers", "model_serializers", "computed_fields") if getattr(decs, k)]
-        if used:
-            raise Unmodelled("pydantic decorators: " + ",".join(used))
         own = set(cls.__dict__.get("__annotations__", {}))
         # ClassVar annotations are not fields
-        if set(cls.model_fields) - own:
-            raise Unmodelled("inherits fields (the fallback only type-checks a class's own annotations)")
-        cfg = dict(cls.model_config)
-        if cfg.get("extra") != "allow" or not cfg.get("populate_by_name"):
-            raise Unmodelled(f"model_config {cfg!r}")
-        for k in cfg:
-            if k not in ("extra", "validate_assignment", "populate_by_name", "validate_by_alias", "validate_by_name",
-                         "use_enum_values", "arbitrary_types_allowed"):
-                raise Unmodelled(f"model_config key {k}")
+        inherits = bool(set(cls.model_fields) - own)
         fields = []
         try:
             hints = typing.get_type_hints(cls)
@@ -195,6 +185,18 @@ def describe(cls, base):
                     raise Unmodelled(f"{n}: default None for a non-Optional annotation")
             fields.append({"py": n, "wire": f.alias or n, "ty": ty, "default": default})
         out["fields"] = fields
+        cfg = dict(cls.model_config)
+        if cfg.get("extra") != "allow" or not cfg.get("populate_by_name"):
+            raise Unmodelled(f"model_config {cfg!r}")
+        for k in cfg:
+            if k not in ("extra", "validate_assignment", "populate_by_name", "validate_by_alias", "validate_by_name",
+                         "use_enum_values", "arbitrary_types_allowed"):
+                raise Unmodelled(f"model_config key {k}")
+        if used:
+            raise Unmodelled("pydantic decorators: " + ",".join(used))
+        if inherits:
+            # kept WITH its fields: the harness still generates instances and compares the two back ends on them
+            raise Unmodelled("inherits fields (the fallback only type-checks a class's own annotations)")
     except Unmodelled as e:
         out["unmodelled"] = str(e)
     return out
